@@ -1360,8 +1360,12 @@ class Enumerator:
                 target = self._inline_target(callees, st3, n)
                 if target is not None:
                     return self._inline(target, term, st3, k, ph)
+                out = []
+                for o in self._new_overrides(callees, st3):
+                    # virtual dispatch: the receiver may be an instance of a subclass that (newly) overrides the method
+                    out.extend(self._inline(o, term, st3.emit(Ev("dispatch", N(o.qualname), n, st3.fn, {"callee": o})), k, ph))
                 res = k(st3, ph)
-                return res + self._raise_variants(st3, n)
+                return out + res + self._raise_variants(st3, n)
 
             return self.ev_list(list(n.args) + kwnodes, st1, kargs)
 
@@ -1463,6 +1467,22 @@ class Enumerator:
         if not self.inline_pred(callee, depth, node):
             return None
         return callee
+
+    def _new_overrides(self, callees, st: St) -> List[FuncInfo]:
+        """Methods introduced after the analysed baseline that override a baseline method the call may dispatch to."""
+        is_new = getattr(self, "is_new", None)
+        if is_new is None or callees is None or callees.how not in ("typed", "by_name") or callees.tags or len(callees.targets) < 2:
+            return []
+        out = []
+        for t in callees.targets:
+            if t.cls is None or not is_new(t) or t in st.frames or len(st.frames) > self.max_depth or isinstance(t.node, ast.Lambda):
+                continue
+            if any(isinstance(x, (ast.Yield, ast.YieldFrom)) for x in _own_nodes_of(t.node)):
+                continue
+            mro = self.p.mro(t.cls)
+            if any(o is not t and o.cls is not None and o.cls in mro and not is_new(o) for o in callees.targets):
+                out.append(t)
+        return out
 
     def _inline(self, callee: FuncInfo, call: ast.Call, st: St, k, ph):
         env = self._bind_params(callee, call, st)
